@@ -2,6 +2,7 @@ package checks
 
 import (
 	"fmt"
+	"math"
 	"strings"
 	"testing"
 	"time"
@@ -161,7 +162,7 @@ func runC13(t *testing.T, tape *sim.Tape, tier string) *Outcome {
 				r.Args, r.Select = []string{"SELECT", fmt.Sprint(db)}, db
 			case k == 3 && tape.Draw(2, "maysel") == 1:
 				// numbers a server may refuse or accept: the connection's database changes iff the answer is OK
-				n := []int{-1, -7, 1 << 20, -(1 << 31)}[tape.Draw(4, "mayselval")]
+				n := []int{-1, -7, 1 << 20, -(1 << 31), 1 << 62, 1<<62 + 5, math.MaxInt64, math.MinInt64, -(1 << 62) - 1}[tape.Draw(9, "mayselval")]
 				r.Args, r.MaySel = []string{"SELECT", fmt.Sprint(n)}, &n
 			case k == 3:
 				r.Args = [][]string{{"SELECT", "abc"}, {"SELECT"}, {"SELECT", ""}, {"SELECT", "1.5"}, {"SELECT", "99999999999999999999"}, {"SELECT", "-"}}[tape.Draw(6, "badselect")]
